@@ -227,4 +227,63 @@ example : (admitServerChain .v12 (.authority 1) true [.v13]
     [⟨some 1, ["client"], true, ["operator"], 7⟩, ⟨none, ["x"], true, ["admin"], 99⟩]).map (·.role)
       = some (some "operator") := by decide
 
+
+/-! ## Several peers on one server: every admission is decided on its own -/
+
+/-- the outcome for the peer at position `i` is the outcome that peer would get alone -/
+theorem admitServerSeq_get (min : Ver) (mode : Mode) (authz : Bool) (peers : List Peer) (i : Nat) :
+    (admitServerSeq min mode authz peers)[i]? =
+      peers[i]?.map (fun p => admitServerChain min mode authz p.1 p.2) := by
+  simp [admitServerSeq]
+
+theorem admitServerSeq_length (min : Ver) (mode : Mode) (authz : Bool) (peers : List Peer) :
+    (admitServerSeq min mode authz peers).length = peers.length := by
+  simp [admitServerSeq]
+
+/-- **admission_history_independent**: whoever connected before (`before`) and whoever connects
+    afterwards (`after`) — authorized or not, with whatever role — the peer `p` is admitted iff
+    it would be admitted by a fresh server, with the same version and the same role: the role
+    handed to the authorization handler is always the one in the certificate presented on
+    *this* connection (`role_is_end_entity_role`), never one remembered from another peer -/
+theorem admission_history_independent (min : Ver) (mode : Mode) (authz : Bool)
+    (before after : List Peer) (p : Peer) :
+    (admitServerSeq min mode authz (before ++ p :: after))[before.length]? =
+      some (admitServerChain min mode authz p.1 p.2) := by
+  simp [admitServerSeq]
+
+/-- the same, comparing two histories: if two sequences of peers have the same peer at
+    position `i`, the outcomes at position `i` are equal -/
+theorem admission_depends_on_peer_only (min : Ver) (mode : Mode) (authz : Bool)
+    (peers peers' : List Peer) (i : Nat) (h : peers[i]? = peers'[i]?) :
+    (admitServerSeq min mode authz peers)[i]? = (admitServerSeq min mode authz peers')[i]? := by
+  rw [admitServerSeq_get, admitServerSeq_get, h]
+
+/-- in particular a role-less certificate is refused (authorization mode) after any history … -/
+theorem roleless_refused_after_any_history (min : Ver) (t : Nat) (before after : List Peer)
+    (offered : List Ver) (c : Cert) (rest : List Cert) (h : c.roles.length ≠ 1) :
+    (admitServerSeq min (.authority t) true (before ++ (offered, c :: rest) :: after))[before.length]?
+      = some none := by
+  rw [admission_history_independent]
+  exact congrArg some (roleless_end_entity_refused min t offered c rest h)
+
+/-- … and an admitted peer's role is its own certificate's role after any history -/
+theorem role_is_own_role_after_any_history (min : Ver) (t : Nat) (before after : List Peer)
+    (offered : List Ver) (c : Cert) (rest : List Cert) (a : Admission)
+    (h : (admitServerSeq min (.authority t) true (before ++ (offered, c :: rest) :: after))[before.length]?
+      = some (some a)) :
+    ∃ r, c.roles = [r] ∧ a.role = some r := by
+  rw [admission_history_independent] at h
+  exact role_is_end_entity_role min t offered c rest a (Option.some.inj h)
+
+/-- operator, then viewer, then a role-less certificate, then operator again -/
+example :
+    let op : Cert := ⟨some 1, ["client"], true, ["operator"], 7⟩
+    let vw : Cert := ⟨some 1, ["client"], true, ["viewer"], 8⟩
+    let nr : Cert := ⟨some 1, ["client"], true, [], 9⟩
+    (admitServerSeq .v12 (.authority 1) true
+        [([.v13], [op]), ([.v12], [vw]), ([.v13], [nr]), ([.v12, .v13], [op])]).map
+      (fun o => o.map (fun a => (a.version, a.role)))
+      = [some (.v13, some "operator"), some (.v12, some "viewer"), none, some (.v13, some "operator")] := by
+  decide
+
 end Rodbus.C09
